@@ -26,13 +26,6 @@ Proof.
   rewrite (H k (or_introl eq_refl)). cbn [apply_opt]. apply IH. intros k' Hk'. apply H; right; exact Hk'.
 Qed.
 
-Lemma get_ks_mem st k : keys_sorted st -> get_ks st k <> empty_ks -> In (k, get_ks st k) st.
-Proof.
-  induction st as [|[k0 v0] r IH]; intros Hs Hne; cbn [get_ks] in *; [congruence|].
-  apply keys_sorted_cons in Hs. destruct Hs as [Hr _].
-  destruct (N.eqb_spec k0 k); [subst; left; reflexivity|]. destruct (k <? k0); [congruence|]. right. apply IH; assumption.
-Qed.
-
 Lemma pess_rollback_key_after ks s fu : pess_rollback_key (match pess_rollback_key ks s fu with Some x => x | None => ks end) s fu = None.
 Proof.
   unfold pess_rollback_key. destruct (pess_rollback_match ks s fu) eqn:E; [reflexivity|]. rewrite E. reflexivity.
